@@ -123,7 +123,7 @@ def run(ctx, pid=PID, families=(("commit", 120, 600), ("retry", 60, 300)), mutan
             run_no += 1
         groups.append((core.consts_of(ov), g))
     for fam, nq, nt in families:
-        scen += core.random_scenarios(ctx, nt if thorough else nq, fam, start_run=run_no)
+        scen += core.random_scenarios(ctx, 2 * nt if thorough else nq, fam, start_run=run_no)   # thorough: twice the table's count
         run_no = scen[-1]["run"] + 1
     scen += core.directed_scenarios(run_no)
     run_no = scen[-1]["run"] + 1
